@@ -294,7 +294,7 @@ def snap_params_to_knots(obj, param):
     return param
 
 
-def swap_trim_coordinates(trim):
+def swap_trim_coordinates(trim, done=None):
     """ Swaps the coordinates of a trim curve.
 
     The trim curves are defined on the parametric space of the surface; x- and y-coordinates correspond to the u- and
@@ -302,12 +302,20 @@ def swap_trim_coordinates(trim):
 
     :param trim: trim curve (spline geometry, freeform geometry or a container of them)
     :type trim: abstract.Geometry
+    :param done: identities of the trim curves and containers which have been processed already (they are skipped)
+    :type done: set
     """
+    # A curve which belongs to several trims (or a trim which belongs to several surfaces) is processed once
+    done = set() if done is None else done
+    if id(trim) in done:
+        return
+    done.add(id(trim))
+
     # Swapping the coordinates mirrors the curve, i.e. changes its orientation. The trim curves are also reversed since the
     # sense of a trim curve can be determined from its orientation (see the trimming module).
     if trim.type == "container":
-        for t in trim:
-            swap_trim_coordinates(t)
+        for t in list(trim._elements):
+            swap_trim_coordinates(t, done)
         # The curves of the container are traversed one after the other: reversed curves in the reverse order
         trim._elements.reverse()
         trim.reset()
